@@ -34,7 +34,7 @@ inductive Step (rsteps : List RStep) (psteps : List PStep) : St → St → Prop
   | recvBegin (s : St) (ref plain : Bytes) (s' : St) :
       s.recv = none → plain.length < 4294967296 → recvBegin P rsteps s ref plain = (s', none) →
       Step rsteps psteps s s'
-  | recvStep (s : St) : s.recv ≠ none → Step rsteps psteps s (recvStep P psteps s)
+  | recvStep (s : St) : s.recv ≠ none → s.failIndex = 0 → Step rsteps psteps s (recvStep P psteps s)
   | jobStep (s : St) (i : Nat) : Step rsteps psteps s (stepJob P psteps s i)
   | restart (s : St) (wipe : Bool) (order : List Bytes) :
       (∀ n, n ∈ order ↔ has s.metas n = true) →
@@ -108,8 +108,8 @@ structure Inv (s : St) : Prop where
 theorem Inv.frame {P : Params} {s : St} (h : Inv P s) (s' : St)
     (e : s'.index = s.index ∧ s'.blobs = s.blobs ∧ s'.metas = s.metas ∧ s'.heap = s.heap ∧
       s'.nonce = s.nonce ∧ s'.jobs = s.jobs ∧ s'.recv = s.recv) : Inv P s' := by
-  obtain ⟨i, b, m, hp, n, j, r, t, fb, fm, lf⟩ := s
-  obtain ⟨i', b', m', hp', n', j', r', t', fb', fm', lf'⟩ := s'
+  obtain ⟨i, b, m, hp, n, j, r, t, fb, fm, fi, lf⟩ := s
+  obtain ⟨i', b', m', hp', n', j', r', t', fb', fm', fi', lf'⟩ := s'
   simp only at e
   obtain ⟨e1, e2, e3, e4, e5, e6, e7⟩ := e
   subst e1; subst e2; subst e3; subst e4; subst e5; subst e6; subst e7
@@ -779,7 +779,8 @@ theorem Inv.failed {s : St} (h : Inv P s) (x : Recv) (hx : s.recv = some x) (hm 
       subst hy
       exact ⟨r1, fun hn => by simp at hn, fun hn => absurd rfl hn.1, Or.inl ⟨hm, Or.inr (Or.inr rfl)⟩⟩ }
 
-theorem inv_recvStep (I : Ideal P) {s : St} (h : Inv P s) : Inv P (recvStep P goodP s) := by
+theorem inv_recvStep (I : Ideal P) {s : St} (h : Inv P s) (hfi : s.failIndex = 0) :
+    Inv P (recvStep P goodP s) := by
   unfold recvStep
   cases hx : s.recv with
   | none => exact h
@@ -952,7 +953,7 @@ theorem inv_recvStep (I : Ideal P) {s : St} (h : Inv P s) : Inv P (recvStep P go
           subst hpv
           simp
         · -- index.Set
-          simp only [hr]
+          simp only [hr, hfi, Nat.zero_ne_one, if_false]
           have hnone := r2 (by simp [hr])
           exact {
             kI := kasc_ins _ _ h.kI, kM := h.kM, kB := h.kB, dec := h.dec
@@ -1220,7 +1221,7 @@ theorem inv_init : Inv P ({} : St) where
 theorem inv_step (I : Ideal P) {s s' : St} (h : Inv P s) (st : Step P goodR goodP s s') : Inv P s' := by
   cases st with
   | recvBegin ref plain _ h0 hlen hb => exact inv_recvBegin I h ref plain h0 hlen hb
-  | recvStep _ => exact inv_recvStep I h
+  | recvStep _ hfi => exact inv_recvStep I h hfi
   | jobStep i => exact inv_stepJob I h i
   | restart wipe order hord => exact (restart_spec h wipe order hord).2.2
   | arm b m => exact h.frame _ ⟨rfl, rfl, rfl, rfl, rfl, rfl, rfl⟩
@@ -1305,7 +1306,7 @@ theorem trace_step {s s' : St} (h : Inv P s) (ht : TraceOK P s) (st : Step P goo
       · injection hb with hb _
         subst hb
         exact ht
-  | recvStep hne =>
+  | recvStep hne hfi =>
     unfold recvStep
     cases hx : s.recv with
     | none => exact ht
@@ -1329,7 +1330,9 @@ theorem trace_step {s s' : St} (h : Inv P s) (ht : TraceOK P s) (st : Step P goo
       · split
         · exact ht
         · exact ht
-      · exact ht
+      · split
+        · exact ht
+        · exact ht
   | jobStep i =>
     unfold stepJob
     cases hji : s.jobs[i]? with
